@@ -8,6 +8,7 @@ import (
 	. "github.com/flant/shell-operator/pkg/hook/task_metadata"
 	"github.com/flant/shell-operator/pkg/task"
 	"github.com/flant/shell-operator/pkg/task/queue"
+	"github.com/flant/shell-operator/pkg/utils/verifhook"
 )
 
 type CombineResult struct {
@@ -66,6 +67,8 @@ func (op *ShellOperator) combineBindingContextForHook(tqs *queue.TaskQueueSet, q
 			otherTasks = append(otherTasks, tsk)
 		}
 	})
+
+	verifhook.Point("combine.betweenIterateAndFilter", q.Name, t, len(otherTasks))
 
 	// no tasks found to combine
 	if len(otherTasks) == 0 {
